@@ -270,8 +270,29 @@ def run(F, R, tier):
                 "status.tag is only ever the target of fs::rename(status.tag.tmp -> status.tag), behind the Ok edge of fs::write(status.tag.tmp)",
                 "status.tag file-system uses: %s" % uses_tag)
 
-    # ------------------------------------------------------------------ R5 [T]
-    if tier == "thorough":
+    # ------------------------------------------------------------------ R5
+    gi = F.body_of(PV + "get_provision_state_internal")
+    if not gi:
+        R.fail("C16.R5", "C16.R5:anchor-missing:get_provision_state_internal", "-", "anchor-missing=provision::get_provision_state_internal")
+    else:
+        R.touched(gi["id"])
+        Bg = mir.Body(gi, F)
+        aggs = [(bi, s) for bi, blk in enumerate(Bg.blocks) if not blk["cleanup"] for s in blk["stmts"]
+                if s["k"] == "assign" and s["rv"]["k"] == "agg" and str(s["rv"].get("adt", "")).endswith("ProvisionStateInternal")]
+        okm, det = bool(aggs), []
+        for bi, s in aggs:
+            names = s["rv"].get("fields") or []
+            for i, o in enumerate(s["rv"]["ops"]):
+                if i < len(names) and names[i] == "error_message":
+                    org = Bg.origins(o)
+                    det.append(sorted(map(str, org)))
+                    if not org or not all(x[0] == "call" and q.ends(x[1], "get_provision_failed_state_message") for x in org):
+                        okm = False
+        R.check(okm and det, "C16.R5", "C16.R5:%s:error-text-source" % gi["id"], "%s:%s" % (gi["file"], gi["line"]),
+                "ProvisionStateInternal.error_message is get_provision_failed_state_message() on every path (the text names the subsystems "
+                "not ready at the time of the query, whatever the finished tick)",
+                "error_message of the provision reply can be something other than get_provision_failed_state_message(): %s" % det)
+    if True:
         h = F.body_of(AP + "proxy::proxy_server::ProxyServer::handle_provision_state_check_request")
         if h:
             R.touched(h["id"])
